@@ -70,6 +70,7 @@ type Out struct {
 	// Hung: a handler action did not come back and for two seconds on end a goroutine was parked
 	// on a mutex of rest/handler: the run was cut there (then D is produced once more: RetAtD)
 	Hung bool   `json:"hung"`
+	Dump string `json:"dump,omitempty"` // goroutine dump taken when a handler action hung
 	Err  string `json:"err,omitempty"`
 }
 
@@ -244,7 +245,8 @@ func runRest(c Case) (out Out) {
 	stepH := func(selfCancel bool) (hack, bool) {
 		select {
 		case gate <- hcmd{selfCancel, c.D.Yield}:
-		case <-time.After(5 * time.Second):
+		case <-time.After(7 * time.Second):
+			out.Hung = true // the handler never took its next step
 			return hack{}, false
 		}
 		if rw.stall != nil && !rw.stallUsed.Load() {
@@ -271,6 +273,8 @@ func runRest(c Case) (out Out) {
 	// a handler action hangs inside rest/handler: an observation.  The Done event is produced
 	// (once more) and ServeHTTP is given the usual time to return
 	cutHung := func() {
+		out.Hung = true
+		out.Dump = goroutineDump()
 		cancelParent()
 		out.RetAtD = 0
 		if sReturned(waitS) {
